@@ -203,6 +203,11 @@ def c_tmo(v):
 
 
 def gen_tables(ctx):
+    _gen_tables_own(ctx)
+    common.source_tie('C19')  # small pure functions translated from the source and proved equal to the model (DESIGN 12.8)
+
+
+def _gen_tables_own(ctx):
     sites = scan_sites()
     rows = []
     for (rel, q, callee, has_t, line) in sites:
